@@ -28,6 +28,7 @@ func buildProperties() []Property {
 				{"R-MAP-COW", 4, ruleMapCOW},
 				{"R-ESCAPE-TABLES", 12, ruleEscapeTables},
 				{"R-ESCAPE-VALIDATED", 1, ruleEscapeValidated},
+				{"R-BRACKET-PRIORITY", 2, ruleBracketPriority},
 				{"R-FLOAT-TEXT", 2, ruleFloatText},
 				{"R-TEXT-RUNE", 8, ruleTextRune},
 				{"R-OPS-SOURCE", 4, ruleOpsSource},
@@ -41,6 +42,7 @@ func buildProperties() []Property {
 				{"R-ATOM-CANONICAL", 1, ruleAtomCanonical},
 				{"R-CODE-NARROW", 5, ruleCodeNarrow},
 				{"R-CODE-VALID", 3, ruleCodeValid},
+				{"R-BOOTSTRAP-PURE", 4, ruleBootstrapPure},
 				{"R-TAIL-CDR", 1, ruleTailCdr},
 				{"R-TRIM-CUTSET", 1, ruleTrimCutset},
 				{"R-RESOLVE-ALL", 130, ruleResolveAll("C16")},
@@ -76,6 +78,7 @@ func buildProperties() []Property {
 				{"R-STABLE-KEYSORT", 1, ruleStableKeysort},
 				{"R-COMPARE-RANGE", 20, ruleCompareRange},
 				{"R-SET-ORDER", 4, ruleSetOrder},
+				{"R-COMPARE-ABSTRACT", 4, ruleCompareAbstract},
 				{"R-COMPOUND-ORDER", 5, ruleCompoundOrder},
 				{"R-INT-WRAP", 3, ruleIntWrap},
 				{"R-COMPOUND-UNIFORM", 7, ruleCompoundUniform},
@@ -86,7 +89,8 @@ func buildProperties() []Property {
 			Decides:    "whole-program discipline for package-level state, recomputed from the source on every run: every run-time write to a package-level variable is under that variable's mutex or atomic; a variable written after init is read only under the lock or atomically; package-level maps are only read after init; no store can reach an object shared through a package-level variable (default write options, singleton promises, root environment). Hence the only state shared between two interpreters is guarded (no data race on library state for any schedule) and nothing one interpreter changes is reachable from another.",
 			NotDecided: "equality of answers with a sequential run; races inside host-provided readers/writers; the VM fields themselves (one goroutine per interpreter is assumed by the property).",
 			Rules: []RuleDef{
-				{"R-ATOMIC-RMW", 1, ruleAtomicRMW},
+{"R-LOCK-LEAF", 2, ruleLockLeaf},
+								{"R-ATOMIC-RMW", 1, ruleAtomicRMW},
 				{"R-GLOBAL-WRITES", 10, only("R-GLOBAL-WRITES", ruleGlobalState)},
 				{"R-GLOBAL-READS", 3, only("R-GLOBAL-READS", ruleGlobalState)},
 				{"R-GLOBAL-TABLES", 4, only("R-GLOBAL-TABLES", ruleGlobalState)},
@@ -107,6 +111,7 @@ func buildProperties() []Property {
 				{"R-GOROUTINE-RELEASE", 2, only("R-GOROUTINE-RELEASE", ruleSolutionsTypestate)},
 				{"R-CLOSE-STOPS", 1, ruleCloseStops},
 				{"R-ANSWER-KEPT", 1, ruleAnswerKept},
+				{"R-CONT-NOT-IN-LOOP", 1, ruleContNotInLoop},
 			},
 		},
 		{
@@ -124,6 +129,7 @@ func buildProperties() []Property {
 				{"R-PLACEHOLDER-TAINT", 2, rulePlaceholderTaint},
 				{"R-ARGS-CONSUMED", 2, ruleArgsConsumed},
 				{"R-SUBST-LAST", 1, ruleSubstLast},
+				{"R-STRING-SOURCES", 1, ruleStringSources},
 			},
 		},
 		{
@@ -135,6 +141,7 @@ func buildProperties() []Property {
 				{"R-ASSERT-COPY", 1, ruleAssertCopy},
 				{"R-ASSERT-ATOMIC", 1, ruleAssertAtomic},
 				{"R-ABSENT-NOT-STATIC", 3, ruleAbsentNotStatic},
+				{"R-RETRACT-REMOVES", 1, ruleRetractRemoves},
 				{"R-SNAPSHOT", 2, func(c *Ctx, r *Report) { ruleSnapshot(c, r); ruleSnapshotPointers(c, r) }},
 				{"R-SLICE-OWNER", 4, ruleSliceOwner},
 				{"R-DB-WRITERS", 6, ruleStateWriters("R-DB-WRITERS", [][2]string{{"VM", "procedures"}, {"userDefined", "clauses"}},
@@ -182,6 +189,7 @@ func buildProperties() []Property {
 			Rules: []RuleDef{
 				{"R-DISCONTIGUOUS-INDEP", 1, ruleDiscontiguousIndep},
 				{"R-FLAG-LIVE", 1, ruleFlagLive},
+				{"R-DIRECTIVE-FLUSH", 1, ruleDirectiveFlush},
 				{"R-MORE-CLEAN-END", 1, ruleMoreCleanEnd},
 				{"R-COMMIT-AFTER-SUCCESS", 3, ruleCommitAfterSuccess},
 				{"R-STAGING-LOCAL", 1, ruleStagingLocal},
@@ -195,6 +203,8 @@ func buildProperties() []Property {
 			Decides:    "each clause activation runs on a persistent environment (no binding leaks between activations, sibling branches or successive answers: every Env store targets a private node); the interpreter threads its variable frame, continuation and cut barrier unchanged through its own re-entries; every opcode has a handler. A functor-name comparison is always paired with an examination of the same value's arity.",
 			NotDecided: "that the answer sequence equals the reference SLD sequence (clause order, goal order, completeness, termination reporting) - a statement about the dynamic shape of the promise stack for every program.",
 			Rules: []RuleDef{
+				{"R-CALL-ALL-CLAUSES", 1, ruleCallAllClauses},
+				{"R-CONT-NOT-IN-LOOP", 1, ruleContNotInLoop},
 				{"R-ANON-VAR", 2, ruleAnonVar},
 				{"R-FUNCTOR-ARITY", 35, ruleFunctorArity},
 				{"R-ENV-IMMUT", 9, ruleEnvImmut},
@@ -211,6 +221,7 @@ func buildProperties() []Property {
 			Decides:    "cut-barrier discipline: the barrier field is written only at construction and cleared only by the trampoline; a cut is tagged with the activation's own barrier; each clause alternative gets the promise holding this call's alternatives as barrier; no *Promise can travel into a callee (procedure interface, Cont, VM fields), so every goal entered through call/N, \\+, findall, catch gets a fresh barrier. Control constructs inspect the shape of a goal only after resolving it and their closures write no captured Go variable (no state that backtracking cannot restore). The sequence iterator looks at the left operand of a conjunction, so a conjunction nested on the left is not compiled as a call of ','/2 (in which a cut would be local).",
 			NotDecided: "that popUntil prunes exactly the right frames for every dynamic stack; the derived semantics of ->, once, \\+ in bootstrap.pl.",
 			Rules: []RuleDef{
+				{"R-ALT-SOURCE", 2, ruleAltSource},
 				{"R-CUT-TARGET-OWN", 2, ruleCutTargetOwn},
 				{"R-SEQ-FLATTEN", 1, ruleSeqFlatten},
 				{"R-CONTROL-STATELESS", 12, ruleControlStateless},
@@ -245,6 +256,7 @@ func buildProperties() []Property {
 			NotDecided: "free-variable computation, witness variance, partition into groups, solution order.",
 			Rules: []RuleDef{
 				{"R-VARIANT-DESCENDS", 1, ruleVariantDescends},
+				{"R-PARTIAL-BOTH-PARTS", 3, rulePartialBothParts},
 				{"R-VARIANT-BIJECTIVE", 1, ruleVariantBijective},
 				{"R-GROUP-ALL", 1, ruleGroupAll},
 				{"R-RESOLVE-ALL", 18, ruleResolveAll("C11")},
@@ -272,6 +284,8 @@ func buildProperties() []Property {
 			Decides:    "a failed unification leaves no binding (environments are persistent: every Env store targets a node private to the writer); unify_with_occurs_check applies the check at every depth and before every bind; atomic terms are compared with a total non-panicking equality; every slice/string encoding of a list reports './2 through the Compound interface. The occurs check recurses into the referent of a bound variable and into every argument; the dynamic type of a term is inspected only after resolution; functor-name comparisons are paired with arity. unify never re-enters itself through a wrapper that fixes the occurs-check flag; the tail of a partial list replaces only the cdr; every one-character name, U+FFFD included, has the rune as its only representation.",
 			NotDecided: "most-generality, symmetry, idempotence, and that Arg(n) of the four list encodings denotes the same abstract argument (algebraic laws over all term pairs).",
 			Rules: []RuleDef{
+				{"R-TEXT-RUNE", 8, ruleTextRune},
+				{"R-PARTIAL-BOTH-PARTS", 3, rulePartialBothParts},
 				{"R-FLOAT-FINITE", 2, ruleFloatFinite},
 				{"R-PARTIAL-SPINE", 1, rulePartialSpine},
 				{"R-UNIFY-ABSTRACT", 1, ruleUnifyAbstract},
